@@ -103,7 +103,9 @@ def r022_023(ctx):
         mfc = A.entry(r, COERCE, NP)
         bad = []
         cells = 0
-        for cfv in (None, ["c"]):
+        # control_feature_names: None, a non-empty list, and the empty list (control features given with zero columns: one, empty,
+        # control combination - grouped like a list, but nothing to un-stack at the end)
+        for cfv in (None, ["c"], []):
             for mev in ("between_groups", "to_overall", "bogus"):
                 for erv in ("raise", "coerce"):
                     env = {cf: cfv, me: mev, er: erv}
@@ -136,7 +138,7 @@ def r022_023(ctx):
                             b["s"] = s_
                             wants.append(A.spec("(mf - s).abs().max()" if cfv is None else "(mf - s).abs().groupby(level=cf).max()", b))
                         if not any(A.eq(got, w) for w in wants):
-                            bad.append(f"method={mev} errors={erv} control={'yes' if cfv else 'no'}: {A.show(got, 160)}")
+                            bad.append(f"method={mev} errors={erv} control={cfv!r}: {A.show(got, 160)}")
                     else:
                         if mev == "between_groups":
                             want = A.entry(r, "self.apply_grouping('min', control_feature_names, errors=errors) / "
@@ -155,10 +157,12 @@ def r022_023(ctx):
                             b["f"] = f
                             if cfv is None:
                                 want = A.spec("(bg / ov).apply(lambda x: x.transform(f)).min()", b)
+                            elif not cfv:
+                                want = A.spec("(bg.unstack(level=cf) / ov.unstack(level=cf)).apply(lambda x: x.transform(f)).min()", b)
                             else:
                                 want = A.spec("(bg.unstack(level=cf) / ov.unstack(level=cf)).apply(lambda x: x.transform(f)).min().unstack(0)", b)
                             if not A.eq(got, want):
-                                bad.append(f"to_overall control={'yes' if cfv else 'no'}: {A.show(got, 200)}")
+                                bad.append(f"to_overall control={cfv!r}: {A.show(got, 200)}")
                             # the fold itself
                             x = mk("param", "spec", "x")
                             if f.op == "lam":
